@@ -80,6 +80,9 @@ class Built(object):
       cid = rnd.choice(cands) if cands and rnd.random() < 0.5 else '%s%d' % (prefix, self.nformulas)
       used[t].add(cid)
       return cid
+    # Any-typed formula columns that hold records live in one table only, and that table is not renamed in the main
+    # stream (open finding stale_record_relation_after_table_rename; its witness runs in every check)
+    self.any_ref_table = rnd.choice(s.tables)
     for t in s.tables:
       if rnd.random() < 0.8:
         i = self.gen.access(t, kinds=('int',))
@@ -92,7 +95,7 @@ class Built(object):
       kc, kv = self.gen._key_pair(t, o)
       if kc and rnd.random() < 0.8:
         cid = fresh_id(t, 'R')
-        typed = rnd.random() < 0.6
+        typed = t != self.any_ref_table or rnd.random() < 0.3
         self.add_formula(t, 'f0', cid, 'formula_ref_lookup', u'%s.lookupOne(%s=%s)' % (self.gen.T(o), kc, kv),
                          col_type=('Ref:' + self.doc_tid(self.names()[1], o)) if typed else 'Any')
         self.gen.formula_refs.setdefault(t, {})['f0'] = o
@@ -100,7 +103,8 @@ class Built(object):
       rc, rk, tgt = self.gen.ref(t)
       if rc and rnd.random() < 0.6:
         cid = fresh_id(t, 'R')
-        self.add_formula(t, 'f1', cid, 'formula_ref_passthrough', u'$%s' % rc, col_type='Any')
+        self.add_formula(t, 'f1', cid, 'formula_ref_passthrough', u'$%s' % rc,
+                         col_type='Any' if t == self.any_ref_table else 'Ref:' + self.doc_tid(self.names()[1], tgt))
         self.gen.formula_refs.setdefault(t, {})['f1'] = tgt
         s.init_cid[t + '.f1'] = cid
 
@@ -132,10 +136,11 @@ class Built(object):
           for g in gb:
             if self.doc.cref[src + '.' + g] == int(c['summarySourceCol']):
               self.doc.cref[sk + '.' + g] = cref
-        elif cid in ('group', 'count'):
-          self.doc.cref[sk + '.' + cid] = cref
+        elif c['formula'] in ('table.getSummarySourceGroup(rec)', 'len($group)'):
+          key = 'group' if cid == 'group' else 'count'
+          self.doc.cref[sk + '.' + key] = cref
           self.doc.templates[cref] = L.parse_template(c['formula'])
-          self.doc.kinds[cref] = 'summary_' + cid
+          self.doc.kinds[cref] = 'summary_' + key
         elif c['formula']:
           m = re.match(r'^SUM\(\$group\.(\w+)\)$', c['formula'])
           key = None
@@ -152,14 +157,14 @@ class Built(object):
     # summary formula columns; 'x0' exists in both summary tables under the same id (sisters)
     sister_id = rnd.choice(['tot', 'Sum2', 'agg'])
     for sk in self.summaries:
-      for j in range(rnd.randint(2, 4)):
+      for j in range(rnd.randint(1, 3)):
         key = 'x%d' % j
         cid = sister_id if j == 0 else '%s_%s%d' % (rnd.choice(['m', 'val', 'q']), sk.lower(), j)
         self.add_formula(sk, key, cid, 'group', self.gen.p_group(sk))
         self.gen.summaries[sk]['cols'][key] = 'any'
 
     # the bulk of the formulas
-    want = {t: rnd.randint(7, 11) for t in s.tables}
+    want = {t: rnd.randint(4, 6) for t in s.tables}
     for t in s.tables:
       for j in range(want[t]):
         kind, tmpl = self.gen.formula(t)
@@ -188,7 +193,7 @@ def renameable(built, names):
   columns of summary tables other than `group`, and non-summary tables."""
   out = []
   for tref, t in names.T.items():
-    if t['summarySourceTable']:
+    if t['summarySourceTable'] or int(tref) == built.doc.tref[built.any_ref_table]:
       continue
     out.append(('T', int(tref)))
   for cref, c in names.C.items():
